@@ -534,32 +534,28 @@ def run(chk) -> None:
     chk.expect(ok, "stack-direction", fi.site(loop), "same_direction <=> dot(normal_i, normal_j) > 0", "same_direction is not `dot(normal_i, normal_j) > 0`", K(fi, "direction"), found=[norm(x) for x in sd])
     _labels(chk, fi, loop)
     # ---- emission -----------------------------------------------------------------------------------
-    outs = [l for l in fi.node.body if isinstance(l, ast.For) and "pairs" in astq.names(l.iter) and l is not loop]
-    if len(outs) != 1 or not (isinstance(outs[0].target, ast.Tuple) and len(outs[0].target.elts) == 3 and all(isinstance(e, ast.Name) for e in outs[0].target.elts)):
-        chk.error("stack-emission", fi.where, "loop emitting the recorded triples not found")
+    from checks.c03 import find_emission
+
+    ems = find_emission(fi, "pairs")
+    if len(ems) != 1 or not (isinstance(ems[0][1], ast.Tuple) and len(ems[0][1].elts) == 3 and all(isinstance(e, ast.Name) for e in ems[0][1].elts)):
+        chk.error("stack-emission", fi.where, "place where the recorded triples become Stacking objects not found")
     else:
-        out = outs[0]
-        a, b, t = (e.id for e in out.target.elts)
-        if norm(out.iter) == "sorted(pairs)":
-            chk.ok("stack-emission", fi.site(out), "stackings are emitted in sorted order, one per recorded triple")
-        elif norm(out.iter) in ("pairs", "set(pairs)", "reversed(pairs)"):
-            chk.violation("stack-emission", fi.site(out), f"stackings are emitted by iterating `{norm(out.iter)}`, not sorted(pairs): the output order follows the KD-tree / set order", K(fi, "emission"), found=norm(out.iter))
+        it, tgt, rec, site = ems[0]
+        a, b, t = (e.id for e in tgt.elts)
+        if norm(it) == "sorted(pairs)":
+            chk.ok("stack-emission", fi.site(site), "stackings are emitted in sorted order, one per recorded triple")
+        elif norm(it) in ("pairs", "set(pairs)", "reversed(pairs)", "list(pairs)"):
+            chk.violation("stack-emission", fi.site(site), f"stackings are emitted by iterating `{norm(it)}`, not sorted(pairs): the output order follows the KD-tree / set order", K(fi, "emission"), found=norm(it))
         else:
-            chk.error("stack-emission", fi.site(out), f"emission source `{norm(out.iter)}` not recognised")
-        oinl = Inliner(fi.node)
-        recs = [c2 for c2 in astq.calls(out, "append") if astq.dotted(c2.func.value) == "stackings"]
-        if len(recs) != 1 or not recs[0].args:
-            chk.error("stack-emission", fi.site(out), "expected one stackings.append(...) per triple")
+            chk.error("stack-emission", fi.site(site), f"emission source `{norm(it)}` not recognised")
+        want = f"Stacking(Residue({a}.label, {a}.auth), Residue({b}.label, {b}.auth), StackingTopology[{t}])"
+        swapped = f"Stacking(Residue({b}.label, {b}.auth), Residue({a}.label, {a}.auth), StackingTopology[{t}])"
+        if norm(rec) == want:
+            chk.ok("stack-emission", fi.site(site), "Stacking(first, second, StackingTopology[label]) of the triple")
+        elif norm(rec) == swapped:
+            chk.violation("stack-emission", fi.site(site), "the emitted Stacking swaps the two residues of the recorded triple but keeps its topology", K(fi, "emission-record"), found=norm(rec))
         else:
-            rec = oinl.inline(recs[0].args[0], fm.stmt_of(recs[0]), stop=(a, b, t))
-            want = f"Stacking(Residue({a}.label, {a}.auth), Residue({b}.label, {b}.auth), StackingTopology[{t}])"
-            swapped = f"Stacking(Residue({b}.label, {b}.auth), Residue({a}.label, {a}.auth), StackingTopology[{t}])"
-            if norm(rec) == want:
-                chk.ok("stack-emission", fi.site(recs[0]), "Stacking(first, second, StackingTopology[label]) of the triple")
-            elif norm(rec) == swapped:
-                chk.violation("stack-emission", fi.site(recs[0]), "the emitted Stacking swaps the two residues of the recorded triple but keeps its topology", K(fi, "emission-record"), found=norm(rec))
-            else:
-                chk.violation("stack-emission-form", fi.site(recs[0]), f"the emitted Stacking is `{norm(rec)[:120]}`, not (first, second, StackingTopology[label]) of its triple", K(fi, "emission-record"), found=norm(rec))
+            chk.violation("stack-emission-form", fi.site(site), f"the emitted Stacking is `{norm(rec)[:120]}`, not (first, second, StackingTopology[label]) of its triple", K(fi, "emission-record"), found=norm(rec))
     tops = set(repo.enum_members("common", "StackingTopology"))
     chk.expect(tops == {"upward", "downward", "inward", "outward"}, "stack-topology-enum", "src/rnapolis/common.py StackingTopology", "StackingTopology has the four members", "StackingTopology members changed", "common:StackingTopology", found=sorted(tops))
     for rule, n in (("stack-radius", 1), ("stack-normals", 1), ("stack-offset", 1), ("stack-labels", 1), ("centroid-mean", 1)):
